@@ -35,6 +35,17 @@ which checks report it.
   related the template to the declared state types.  R9.6 / R10.7 now require every write of a
   checkpointed scalar (outside the restore method) to have the kind its State/Info dataclass declares,
   and array leaves not to be built with a narrow dtype.
+* S53 (`jnp.array(getattr(self.config, "gamma", None) or 1.0)`: a requested gamma of 0 silently becomes 1) was *missed*: the
+  solver terms took `self.gamma` as a given.  R2.7 now requires the constructor to assign `self.gamma` from `config.gamma`
+  itself, and R20.12 forbids truthiness tests (`x or d`, `if x:`) of any configuration value for which 0 is a valid setting
+  (gamma, checkpoint_frequency, max_checkpoints, probabilities, random_seed); the earlier seeds S40 and S44 are instances of
+  the same class and are now reported by R20.12 as well.
+* S54 (`_clear_value_history()` moved in front of the final save: the checkpoint of the last iteration holds no history)
+  was *missed*: R9.3 only ordered saves after the writes of an iteration.  R9.7 / R12.8 now require that between a step and
+  the save that records it saved state is written only by storing the step's results.
+* S57 (`jnp.isclose(gamma, 1.0)` for the `gamma != 1` test) was reported by C20 R20.5 only; C01 and C08 ended in
+  ANALYSIS-ERROR on the unmodelled call.  Approximate comparisons are now known, visible functions: C08 R8.3 reports the
+  threshold term, C01 R1.1 says that the bound is void for gamma within the tolerance of 1.
 * S02, S04, S12 first ended in ANALYSIS-ERROR (exit 2: neither a verdict nor a false alarm): the
   solve-loop anchor was keyed on the literal `range(max_iterations)`, the builtin `bool` was unknown
   to the interpreter, and `np.tile` is outside the symbolic space vocabulary.  The sweep loop is now
@@ -54,7 +65,7 @@ which checks report it.
 
 ### 10.7 Metamorphic robustness (no alarm on code where the property holds)
 
-`mdpaxlint/selftest/metamorphic.py` applies eleven behaviour-preserving **whole-tree** transformations
+`mdpaxlint/selftest/metamorphic.py` applies thirteen behaviour-preserving **whole-tree** transformations
 to today's source in memory and every check must stay silent on each ({npairs} transformation x
 property pairs; part of every thorough run; `tools_metamorphic.py` runs them all):
 T1 rename every local variable, T2 swap the operands of every arithmetic `+` / `*`, T3 flip every
@@ -62,7 +73,9 @@ T1 rename every local variable, T2 swap the operands of every arithmetic `+` / `
 non-kernel functions, T6 `return <expr>` through a local, T7 alias read-only `self` attributes into
 locals, T8 flip every `if` (`if c: A else: B` -> `if not c: B else: A`, an else-less `if` gets a `pass`
 branch), T9 call every `self` method with keyword arguments, T10 hoist the first call-valued argument of a
-call into a temporary, T11 inline single-use temporaries.  The first runs produced about thirty alarms
+call into a temporary, T11 inline single-use temporaries, T12 the extract-method refactoring applied mechanically to every
+method (a run of simple statements moves into a new private method that takes the locals it reads and returns the ones it
+binds), T13 rename every private data attribute of the package.  The first runs produced about thirty alarms
 (rules keyed on local names, operand order, comparison orientation, `return <call>` shapes, `if`
 polarity, positional call arguments); all were removed at the root: `returned_expr`,
 `_var_assigned_from`, `deref`, `guard_conditions`, term-based instead of text-based matches, mirrored
@@ -79,11 +92,13 @@ before any rule sees it (line numbers are kept, so reports still point into the 
 |-------------|----------|
 | conditionals | `not not X` -> `X`; `not (a is b)` / `==` / `in` -> the exact complement operator; `if not X: A else: B` -> `if X: B else: A`; `if X: pass else: B` -> `if not X: B`; `if X: A else: <raise/return/break/continue>` -> guard clause `if not X: <...>` followed by `A` (and symmetrically) |
 | statements | `x = a if c else b` (also `return`) -> `if` statement; `setattr(o, "k", v)` -> `o.k = v`; `getattr(o, "k")` -> `o.k`; `for k, v in {<literal>}.items()` / over a literal tuple (also through a local bound once) -> unrolled; a module-level name bound once to a literal is substituted at its uses |
-| calls | `self.m(x=a, y=b)` -> `self.m(a, b)` for resolved methods; library primitives called with their leading parameters by keyword (`lax.scan(f=.., init=.., xs=..)`) are re-ordered inside the interpreter |
+| control flow | `for ..: ... return E` directly followed by `return E` -> `break`; `match` over literals / builtin class patterns / capture / wildcard -> `if` chain; `if not (p := e).f():` -> `p = e` first; constant folding of `and` / `or` / `not` / `if <const>` |
+| aliases | `x = self.a.b` read once and used later is `self.a.b` wherever the method (under its class and every subclass) cannot write `self.a`, and - for attributes it does write - up to the first statement that can write it; pure properties likewise (`rules/common._dealias_read_only_attrs`) |
+| calls | `self.m(x=a, y=b)` -> `self.m(a, b)` for resolved methods; `cast(T, x)` -> `x`; `(lambda c: body)(x)` -> `body[c := x]`; library primitives called with their leading parameters by keyword (`lax.scan(f=.., init=.., xs=..)`) are re-ordered inside the interpreter |
 | helpers | a call, in statement position, to a helper **that no rule mentions by name** (i.e. one the rules were not written against - typically a helper a refactoring has just extracted) is replaced by the helper's body: parameters bound, locals renamed, `return` eliminated into assignments; `def h(..): return <expr>` helpers are substituted in any expression position.  Only simple callees (unique resolution - no subclass overrides it -, no decorators other than static/classmethod, no `*args`, no generators, returns only in tail position of if-trees).  A private helper whose every use was inlined is dropped, so rules that enumerate methods do not see its body twice |
 | terms | `ite(not c, a, b)` = `ite(c, b, a)`, `!=` / `<=` conditions flipped to `==` / `<`; `lift_ite` pulls a given conditional to the top (`x = ite(c,a,b); f(x)` = `if c: f(a) else: f(b)`); `maximum(a, b)` of scalars = `max` over the literal `[a, b]`; function-form operators (`jnp.subtract`, `jnp.not_equal`, `jnp.ptp`, `amax`, ...) are the operators; `x.shape[:3][k]` = `x.shape[k]`; `zeros.at[p].set(arange(len(p)))` = `argsort(p)` for a permutation `p`; `itertools.product(X, repeat=n)` = `product(*[X for _ in range(n)])` |
 
-On today's tree 18 call sites are inlined (e.g. `_calculate_single_step_reward` into the three `transition`
+An override that only delegates (`return super().solve(..)`) is replaced by the parent's body for that class; a predicate helper used as an `if` test is folded back into the test; helpers imported from a sibling module are inlined when their free names mean the same in the caller's module; memoisation / `jit` decorators are transparent; namespace classes of literal constants and module constants are substituted, across modules.  On today's tree 18 call sites are inlined (e.g. `_calculate_single_step_reward` into the three `transition`
 functions, `_clear_value_history`, `_ensure_2d_space`), all checks stay silent and every seeded variant is
 still detected, which is the regression test of the inliner itself.  The anchor set (names never inlined)
 is computed from the string literals of the rule modules, so it cannot drift from the rules.
@@ -137,7 +152,7 @@ up to the normaliser) and which are idiom recognisers.
 '''
 
 import json, glob
-npairs = 11 * 19
+npairs = 13 * 19
 rule_index = subprocess.run(['python3','/verif/tools_rule_index.py'],capture_output=True,text=True).stdout
 try:
     round2 = open('/verif/design_round2.md').read()
